@@ -36,7 +36,13 @@ InitE == \E p \in Pkgs, k1 \in Kinds, k2 \in Kinds,
                     "example.com/gen/opts", "example.com/gen/baseURL", "example.com/gen/httpClient", "example.com/gen/svc",
                     "example.com/gen/mux", "example.com/gen/c;c", "example.com/gen/ctx", "example.com/gen/req"} :
            InitWith([D(p, <<S("Alpha", <<M("One", k1), M("Two", k2)>>)>>, gp, FALSE, FALSE) EXCEPT !.msgs = TRUE])
-MCInit == InitA \/ InitB \/ InitC \/ InitD \/ InitE
+\* services without methods (valid Protobuf: a placeholder), alone and next to an ordinary one
+InitF == \E p \in Pkgs, k \in Kinds, shape \in 1..3 :
+           InitWith(D(p, CASE shape = 1 -> <<S("Placeholder", <<>>)>>
+                           [] shape = 2 -> <<S("Placeholder", <<>>), S("Alpha", <<M("One", k)>>)>>
+                           [] shape = 3 -> <<S("Alpha", <<M("One", k)>>), S("Placeholder", <<>>)>>,
+                    "example.com/gen/t;tpb", FALSE, FALSE))
+MCInit == InitA \/ InitB \/ InitC \/ InitD \/ InitE \/ InitF
 MCSpec == MCInit /\ [][Next]_vars
 GenSpec == MCInit /\ [][FALSE]_vars
 Emit == pc = "start" => PrintT(ToJson(sc))
